@@ -44,7 +44,22 @@ class Report:
         return ok
 
     def undecidable(self, rule, key, reason, site=None, config='default'):
-        """Fail closed: the rule could not analyse something it must understand."""
+        """Fail closed: the rule could not analyse something it must understand.
+
+        One exception: an anchored function that is missing from the tree although the confirmed inventory lists it as a *private*
+        helper.  Code cannot call a function that does not exist, so the helper was inlined into its callers or renamed by a
+        refactoring; the callers are analysed by their own rules and the per-rule floors still require most anchors to be
+        present.  Missing public or crate-visible API is always an alarm."""
+        if reason in ('function not found', 'not found', 'decode body not found', 'writer not found'):
+            try:
+                import inline
+                ent = inline.known().get(key)
+            except Exception:
+                ent = None
+            if ent is not None and not ent.get('api'):
+                self.count('private-helper-absent:' + config)
+                self.notes.append('%s: private helper %s is no longer in the tree (inlined or renamed): its obligations are not checked under this name' % (rule, key))
+                return True
         return self.ob(rule, key, False, 'undecidable: ' + reason, site, None, config)
 
     def floor(self, rule, what, n, floor, config='default', exact=False):
